@@ -15,7 +15,9 @@ Reading guide
 * per combinator: `…_dec_ok` (Lemmas/PayloadResave.lean), `stable_of_dec_ok`.
 * per class: `<class>_dec_encodable`, `<class>_resave_stable`.
 -/
-import PsdVerif.Lemmas.PayloadResave2
+import PsdVerif.Lemmas.PayloadResaveSamples
+import PsdVerif.Props.C01Payload3
+import PsdVerif.Generated.Terms
 import PsdVerif.Model.PayloadResaveTables
 import PsdVerif.Generated.C02Formats
 
@@ -336,5 +338,145 @@ theorem placed_layer_data_dec_encodable_partial (tb : Descriptor.Tables) (ht : D
 theorem placed_layer_data_resave_stable_partial (tb : Descriptor.Tables) (ht : Descriptor.TermsFour tb) (pad : Nat) : StableIf (PlacedLayerData.codec tb pad) (fun x => x.warp.KeysFull) := stableIf_of (PlacedLayerData.decOKIf tb ht pad) (PlacedLayerData.rt tb pad).atEnd
 theorem type_tool_object_setting_dec_encodable_partial (tb : Descriptor.Tables) (ht : Descriptor.TermsFour tb) (pad : Nat) : DecOKIf (TypeToolObjectSetting.codec tb pad) (fun x => x.textData.KeysFull ∧ x.warp.KeysFull) := TypeToolObjectSetting.decOKIf tb ht pad
 theorem type_tool_object_setting_resave_stable_partial (tb : Descriptor.Tables) (ht : Descriptor.TermsFour tb) (pad : Nat) : StableIf (TypeToolObjectSetting.codec tb pad) (fun x => x.textData.KeysFull ∧ x.warp.KeysFull) := stableIf_of (TypeToolObjectSetting.decOKIf tb ht pad) (TypeToolObjectSetting.rt tb pad).atEnd
+
+/-! ## the descriptor family -/
+
+/-- every known term has 4 bytes: in the regenerated `_TERMS` (no term of another length) and hence in the tables of the
+model. A term of another length would be written with the length field 0 and re-read as its first 4 bytes. -/
+theorem terms_have_four_bytes : Generated.Terms.oddTerms = 0 ∧ Descriptor.TermsFour Descriptor.realTables :=
+  ⟨by decide, Descriptor.realTables_termsFour⟩
+
+/-- a key as `read_length_and_key` returns it is always writable, and it satisfies the key law of C20 / C01 IFF it was
+read in full (`KeyFull`: 4 bytes behind a length field of 0, at least one byte otherwise) - the reader's `fp.read(length or
+4)` is lenient, a key at the very end of a stream can come back shorter -/
+theorem descriptor_key_wf_iff (tb : Descriptor.Tables) (ht : Descriptor.TermsFour tb) (d : B) (p : Nat) (k : Descriptor.Key) (p' : Nat)
+    (h : Descriptor.readKeyR tb d p = .ok (k, p')) :
+    Descriptor.KeyFits tb k ∧ (Descriptor.KeyWF tb k ↔ Descriptor.KeyFull k) := by
+  obtain ⟨a, b, c⟩ := Descriptor.ret_readKey tb ht d p k p' h
+  exact ⟨a, c, b⟩
+
+/-- every class of `descriptor.TYPES`: whatever its reader returns is writable (no hypothesis) -/
+theorem descriptor_dec_encodable (tb : Descriptor.Tables) (ht : Descriptor.TermsFour tb) (t : Descriptor.Tag) (d : B) (p : Nat)
+    (v : Descriptor.DVal) (p' : Nat) (h : Descriptor.dec tb t d p = .ok (v, p')) : ∃ bs, Descriptor.enc tb v = .ok bs := by
+  obtain ⟨f, _, _⟩ := Descriptor.dec_good ht t d p v p' h
+  exact ⟨Descriptor.encT tb v, by simp only [Descriptor.enc, if_pos f]⟩
+
+/-- ... and it is in the domain of C01's round trip (`WF`: key law, surrogate law, units, no key twice, block versions)
+IFF none of its keys was cut short. Nothing else is normalised away: explicit / implicit keys, `RawData`, `Alias`, `Path`,
+unit floats, duplicate keys (collapsed by the `OrderedDict`), booleans (any non-zero byte reads as `True`). -/
+theorem descriptor_dec_wf_iff (tb : Descriptor.Tables) (ht : Descriptor.TermsFour tb) (t : Descriptor.Tag) (d : B) (p : Nat)
+    (v : Descriptor.DVal) (p' : Nat) (h : Descriptor.dec tb t d p = .ok (v, p')) :
+    Descriptor.WF tb v ↔ Descriptor.KeysFull v := by
+  obtain ⟨_, a, b⟩ := Descriptor.dec_good ht t d p v p' h
+  exact ⟨b, a⟩
+
+theorem descriptor_block_dec_wf_iff (tb : Descriptor.Tables) (ht : Descriptor.TermsFour tb) (d : B) (p : Nat)
+    (b : Descriptor.Block) (p' : Nat) (h : Descriptor.Block.dec tb d p = .ok (b, p')) :
+    b.Fits tb ∧ (b.WF tb ↔ b.KeysFull) := by
+  obtain ⟨f, a, c⟩ := Descriptor.Block.dec_good ht d p b p' h
+  exact ⟨f, c, a⟩
+
+/-- The full statement is FALSE for descriptors: `ResaveSamples.keyCutShort` is accepted; as a layer-level tagged-block payload it is
+written with `padding=4`, i.e. with two filler bytes, which the re-read takes for the rest of the key (`ab\\0\\0`): the
+re-read structure differs from the one that was saved (clause 2 of the property). Replayed on the real code by the harness. -/
+theorem descriptor_key_cut_short_not_stable :
+    ∃ v n, (DescriptorPayload.codec Descriptor.realTables 4).dec ResaveSamples.keyCutShort 0 = .ok (v, n) ∧ ¬ v.KeysFull ∧
+      ∃ b', (DescriptorPayload.codec Descriptor.realTables 4).enc v = .ok b' ∧ b'.length = 48 ∧
+        ∃ v' n', (DescriptorPayload.codec Descriptor.realTables 4).dec b' 0 = .ok (v', n') ∧ v' ≠ v := by
+  have h1 : ResaveSamples.blockView ((DescriptorPayload.codec Descriptor.realTables 4).dec ResaveSamples.keyCutShort 0) = .ok (ResaveSamples.keyCutShort, 46, false) := by
+    decide +kernel
+  have h2 : (match (DescriptorPayload.codec Descriptor.realTables 4).dec ResaveSamples.keyCutShort 0 with
+      | .ok (v, _) => (DescriptorPayload.codec Descriptor.realTables 4).enc v
+      | .error e => .error e) = .ok (ResaveSamples.keyCutShort ++ [0, 0]) := by decide +kernel
+  have h3 : ResaveSamples.blockView ((DescriptorPayload.codec Descriptor.realTables 4).dec (ResaveSamples.keyCutShort ++ [0, 0]) 0) =
+      .ok (ResaveSamples.keyCutShort ++ [0, 0], 48, true) := by decide +kernel
+  cases hd : (DescriptorPayload.codec Descriptor.realTables 4).dec ResaveSamples.keyCutShort 0 with
+  | error e => rw [hd] at h1; cases h1
+  | ok r =>
+    obtain ⟨v, n⟩ := r
+    rw [hd] at h1 h2
+    simp only [ResaveSamples.blockView, Except.map, Except.ok.injEq, Prod.mk.injEq, decide_eq_false_iff_not] at h1
+    simp only at h2
+    cases hd' : (DescriptorPayload.codec Descriptor.realTables 4).dec (ResaveSamples.keyCutShort ++ [0, 0]) 0 with
+    | error e => rw [hd'] at h3; cases h3
+    | ok r' =>
+      obtain ⟨v', n'⟩ := r'
+      rw [hd'] at h3
+      simp only [ResaveSamples.blockView, Except.map, Except.ok.injEq, Prod.mk.injEq] at h3
+      refine ⟨v, n, rfl, h1.2.2, _, h2, by decide, v', n', hd', ?_⟩
+      intro e
+      have := h3.1
+      rw [e, h1.1] at this
+      revert this
+      decide
+
+
+/-! ## payloads inside their containers -/
+
+/-- a payload inside a skeleton tagged block (`TaggedBlock.read` runs `kls.frombytes` on the bytes of the length block): the
+block with the re-saved payload is well formed, is read back as itself anywhere, and its payload as the value -/
+theorem tagged_block_payload_resave {α : Type} (c : PCodec α) (L : α → Prop) (hc : DecOKIf c L) (hr : c.RtAtEnd) (ver pad : Nat)
+    (hp : pad = 1 ∨ pad = 2 ∨ pad = 4) (d : B) (p : Nat) (t : Psd.TaggedBlock) (p' : Nat)
+    (hd : Psd.TaggedBlock.dec ver pad d p = .ok (some t, p')) (v : α) (n : Nat) (hv : c.dec t.data 0 = .ok (v, n)) (hl : L v)
+    (hlen : FitsU (Psd.tbLenW ver t.key) (c.encT v).length) :
+    c.enc v = .ok (c.encT v) ∧ (⟨t.signature, t.key, c.encT v⟩ : Psd.TaggedBlock).WF ver ∧
+      ∀ pre post : B,
+        Psd.TaggedBlock.dec ver pad (pre ++ (⟨t.signature, t.key, c.encT v⟩ : Psd.TaggedBlock).encT ver pad ++ post) pre.length =
+            .ok (some ⟨t.signature, t.key, c.encT v⟩,
+              pre.length + ((⟨t.signature, t.key, c.encT v⟩ : Psd.TaggedBlock).encT ver pad).length) ∧
+          c.dec (c.encT v) 0 = .ok (v, c.consumed v) :=
+  tagged_block_resave hc hr ver pad hp hd hv hl hlen
+
+theorem image_resource_payload_resave {α : Type} (c : PCodec α) (L : α → Prop) (hc : DecOKIf c L) (hr : c.RtAtEnd)
+    (d : B) (p : Nat) (r : Psd.Resource) (p' : Nat) (hd : Psd.Resource.dec d p = .ok (r, p')) (v : α) (n : Nat)
+    (hv : c.dec r.data 0 = .ok (v, n)) (hl : L v) (hlen : FitsU 4 (c.encT v).length) :
+    c.enc v = .ok (c.encT v) ∧ (⟨r.signature, r.key, r.name, c.encT v⟩ : Psd.Resource).WF ∧
+      ∀ pre post : B,
+        Psd.Resource.dec (pre ++ (⟨r.signature, r.key, r.name, c.encT v⟩ : Psd.Resource).encT ++ post) pre.length =
+            .ok (⟨r.signature, r.key, r.name, c.encT v⟩,
+              pre.length + (⟨r.signature, r.key, r.name, c.encT v⟩ : Psd.Resource).encT.length) ∧
+          c.dec (c.encT v) 0 = .ok (v, c.consumed v) :=
+  image_resource_resave hc hr hd hv hl hlen
+
+/-- the typed image resource: whatever `ImageResource.read` (with the `TYPES[key].frombytes` dispatch) returns is a
+well-formed typed resource that the writer accepts - under the payload's own side condition (slices, descriptor
+resources) and the length field of the re-encoded payload -/
+theorem typed_image_resource_dec_encodable_partial (tb : Descriptor.Tables) (ht : Descriptor.TermsFour tb) (d : B) (p : Nat)
+    (r : TRes) (p' : Nat) (h : TRes.dec tb d p = .ok (r, p')) (hl : r.ResaveOK tb) : r.WF tb ∧ ∃ bs, r.enc tb = .ok bs := by
+  obtain ⟨w, f⟩ := TRes.dec_ok tb ht h hl
+  exact ⟨w, r.encT tb, by simp only [TRes.enc, if_pos f]⟩
+
+/-- ... and the three clauses for it -/
+theorem typed_image_resource_resave_stable_partial (tb : Descriptor.Tables) (ht : Descriptor.TermsFour tb) (b : B) (r : TRes)
+    (n : Nat) (h : TRes.dec tb b 0 = .ok (r, n)) (hl : r.ResaveOK tb) :
+    ∃ bs, r.enc tb = .ok bs ∧ TRes.dec tb bs 0 = .ok (r, bs.length) := by
+  obtain ⟨w, bs, hbs⟩ := typed_image_resource_dec_encodable_partial tb ht b 0 r n h hl
+  refine ⟨bs, hbs, ?_⟩
+  have := C01Payload3.typed_image_resource_roundtrip tb r w bs [] [] hbs
+  simpa using this
+
+/-- Whole documents with typed resources: whatever `PSD.read` returns, every image resource in it is a well-formed typed
+resource that the writer accepts (the typed layer adds no way for `PSD.write` to fail: it fails exactly when the writer
+of the deep skeleton does), the resource ids are distinct. -/
+theorem dec_encodable_typed (tb : Descriptor.Tables) (ht : Descriptor.TermsFour tb) (pad : Nat) (b : B) (x : ResPSD) (p : Nat)
+    (h : ResPSD.read tb b 0 = .ok (x, p)) (hl : x.ResourcesOK tb) :
+    (∀ r ∈ x.resources, r.WF tb) ∧ (x.resources.map TRes.key).Nodup ∧
+      ResPSD.enc tb pad x = DeepPSD.enc pad (x.flat tb) := by
+  obtain ⟨a, c⟩ := ResPSD.read_resources_ok tb ht h hl
+  refine ⟨fun r hr => (a r hr).1, c, ?_⟩
+  have hpf : ResPSD.payloadFits tb x := fun r hr => (a r hr).2.1
+  simp only [ResPSD.enc, if_pos hpf]
+
+/-- The property for a document with typed resources, given that its skeleton part (header, colour mode data, the layer
+and mask section with its nested Lr16 / Lr32 blocks, the image data - `(x.flat tb).WF`, what Props/C02.lean proves the
+skeleton reader returns for the plain skeleton) is well formed: the saved bytes are read back, to the end, as the
+structure that was saved (as the writer left it), and saving that again gives the same bytes. -/
+theorem resave_stable_typed_partial (tb : Descriptor.Tables) (ht : Descriptor.TermsFour tb) (pad : Nat) (b : B) (x : ResPSD)
+    (p : Nat) (s : B) (h : ResPSD.read tb b 0 = .ok (x, p)) (hl : x.ResourcesOK tb) (hdeep : (x.flat tb).WF pad)
+    (hs : ResPSD.enc tb pad x = .ok s) :
+    ResPSD.read tb s 0 = .ok (x.refresh, s.length) ∧ ResPSD.enc tb pad x.refresh = .ok s := by
+  obtain ⟨a, _, _⟩ := dec_encodable_typed tb ht pad b x p h hl
+  have hwf : ResPSD.WF tb pad x := ⟨hdeep, a⟩
+  exact ⟨C01Payload3.psd_roundtrip_resources tb pad x hwf s hs, by rw [ResPSD.enc_refresh, hs]⟩
 
 end PsdVerif.C02
